@@ -10,6 +10,20 @@ KANI_FILES = {
 }
 
 PLAN = {
+    "C02": dict(
+        title="Each layer's forward pass computes its defining operator",
+        level="proof",
+        verus=["C02_convolve.rs", "C02_deconv_forward.rs"],
+        kani=True,
+        undecided_clauses=["max-pool window maximum, dense W x + b, flat == spatial, zero padding (pad3d), network = composition: units under construction"],
+    ),
+    "C08": dict(
+        title="Announced layer shapes equal produced shapes; transitions lose nothing",
+        level="proof",
+        verus=["C08_output_size.rs", "C02_convolve.rs", "C02_deconv_forward.rs"],
+        kani=True,
+        undecided_clauses=["builder chaining over layer sequences and flat-size acceptance: units under construction"],
+    ),
     "C03": dict(
         title="Optimizer steps follow the documented update rules for every history",
         level="proof",
@@ -55,6 +69,26 @@ TRUSTED_BASE = [
 ]
 
 MANIFEST_TEXT = {
+    "C02": dict(
+        category="proof",
+        technique="Verus loop-invariant proofs of the convolution and transposed-convolution nests against recursive tap-sum specs",
+        design_ref="DESIGN.md §5 C02",
+        text="Proof for all shapes and all (kernel, stride, padding, dilation): the real Convolution::convolve (whole function) computes in every "
+             "output cell the strided, dilated cross-correlation sum of the padded input, and the six-deep scatter nest of "
+             "Deconvolution::forward computes the padding-cropped transposed convolution; all indexing in bounds, no usize wrap, produced shape "
+             "= standard formula. Accumulation order is pinned (formula identity).",
+        note="F1 uninterpreted floats; the glue of forward() around the nests (pad3d, re-chunking of flat input, activation, flatten) and dense / "
+             "max-pool / network composition are bounded Kani harnesses or not yet covered (see undecided_clauses in the evidence).",
+    ),
+    "C08": dict(
+        category="proof",
+        technique="Verus contracts on the three calculate_output_size functions + produced-shape postconditions of the forward nests",
+        design_ref="DESIGN.md §5 C08",
+        text="Proof for all valid configurations: each calculate_output_size (announced shape) returns the standard formula without usize wrap, "
+             "and the produced shapes are postconditions of the verified forward nests stated with the same formula, so announced = produced "
+             "is an equality of the two contracts.",
+        note="zero-padding dims (pad3d) and the isqrt of flat sizes are decided by Kani; builder chaining bounded.",
+    ),
     "C03": dict(
         category="proof",
         technique="Verus postconditions on the 15 extracted optimizer element bodies (one spec function per optimizer)",
